@@ -5,8 +5,6 @@
 EXTENDS Base
 
 Arr(shape, elems) == [ok |-> TRUE, shape |-> shape, elems |-> elems]
-NormAxes(axes, d) == [i \in 1..Len(axes) |-> NormAxis(axes[i], d)]
-AxesOk(axes, d) == \A i \in 1..Len(axes) : AxisOk(axes[i], d)
 
 -------------------------------------------------------------------------------
 \* reshape with at most one inferred (-1) extent; C order is kept
